@@ -145,13 +145,15 @@ def build_dir(variant):
 
 
 def prune_build_dirs(keep):
+    """Bounded disk use: drop build trees that were not used for a while (never a recent one:
+    another check may be running from it)."""
     if not os.path.isdir(BUILD_ROOT):
         return
-    dirs = [os.path.join(BUILD_ROOT, d) for d in os.listdir(BUILD_ROOT) if os.path.isdir(os.path.join(BUILD_ROOT, d))]
-    dirs = [d for d in dirs if d not in keep]
+    now = time.time()
+    dirs = [os.path.join(BUILD_ROOT, d) for d in os.listdir(BUILD_ROOT) if os.path.isdir(os.path.join(BUILD_ROOT, d)) and "-" in d and not d.startswith("run-")]
+    dirs = [d for d in dirs if d not in keep and now - os.path.getmtime(d) > 1800]
     dirs.sort(key=lambda d: os.path.getmtime(d))
-    # keep at most 2 stale trees (so alternating between two source states stays cheap)
-    while len(dirs) > 2:
+    while len(dirs) > 4:
         shutil.rmtree(dirs.pop(0), ignore_errors=True)
 
 
@@ -211,6 +213,10 @@ def build(pid, variant=None, fuzz=False, quiet=False):
     ph = hashlib.sha256((file_hash([src]) + harness_hash()).encode()).hexdigest()[:10]
     binary = os.path.join(bdir, "%s%s.%s" % (pid, "_fuzz" if fuzz else "", ph))
     if os.path.exists(binary):
+        try:
+            os.utime(binary, None)
+        except OSError:
+            pass
         return binary
     objs = ensure_adapters(variant, bdir, flags) if cfg["adapters"] else []
     lock = open(os.path.join(bdir, ".lock." + pid + ("_fuzz" if fuzz else "")), "w")
@@ -236,7 +242,8 @@ def build(pid, variant=None, fuzz=False, quiet=False):
             sys.stderr.write("LINK FAILED: %s\n%s\n" % (" ".join(link), out[-6000:]))
             raise SystemExit(3)
         for old in glob.glob(os.path.join(bdir, pid + ("_fuzz" if fuzz else "") + ".*")):
-            if old != binary and not old.endswith(".tmp") and os.path.basename(old).split(".")[0] == pid + ("_fuzz" if fuzz else ""):
+            if old != binary and not old.endswith(".tmp") and os.path.basename(old).split(".")[0] == pid + ("_fuzz" if fuzz else "") \
+                    and time.time() - os.path.getmtime(old) > 1800:
                 try:
                     os.remove(old)
                 except OSError:
